@@ -1,0 +1,168 @@
+//go:build verif
+
+package js_ast
+
+// ----------------------------------------------------------------------------------------------
+// C03 / C06: compile-time evaluation. Spec source: ECMA-262 7.1.6 ToInt32, 7.1.7 ToUint32,
+// 6.1.6.1 Number::* operations, 7.2.13 IsLessThan on strings (code-unit order).
+
+// ECMA-262 7.1.6 ToInt32: NaN, +-0, +-Infinity -> 0; otherwise truncate, reduce modulo 2^32,
+// and read as a signed 32-bit value. For |f| >= 2^85 the double is a multiple of 2^33, hence 0.
+//@ spec func jsToInt32(f float64) int32 =
+//@     (fp.isNaN(f) || fp.isInf(f) || fp.geq(fp.abs(f), 0x1p85)) ? int32(0) : bv.as(int32, bv.extract(31, 0, fp.to_sbv(96, f)))
+
+//@ func ToInt32
+//@   arith bv
+//@   prop C03 C06
+//@   witness f: f
+//@   opt replay toint32
+//@   ensures spec: result == jsToInt32(f)
+
+//@ func ToUint32
+//@   arith bv
+//@   prop C03 C06
+//@   ensures spec: result == uint32(jsToInt32(f))
+
+// Numeric / string literal views (through EAnnotation and EInlinedEnum wrappers)
+//@ spec rec func isNum(d E) bool = is(d, *ENumber) || (is(d, *EAnnotation) && isNum(d.(*EAnnotation).Value.Data)) ||
+//@     (is(d, *EInlinedEnum) && isNum(d.(*EInlinedEnum).Value.Data))
+//@ spec rec func numVal(d E) float64 = is(d, *ENumber) ? d.(*ENumber).Value :
+//@     (is(d, *EAnnotation) ? numVal(d.(*EAnnotation).Value.Data) : numVal(d.(*EInlinedEnum).Value.Data))
+//@ spec rec func isStr(d E) bool = is(d, *EString) || (is(d, *EAnnotation) && isStr(d.(*EAnnotation).Value.Data)) ||
+//@     (is(d, *EInlinedEnum) && isStr(d.(*EInlinedEnum).Value.Data))
+//@ spec rec func strVal(d E) []uint16 = is(d, *EString) ? d.(*EString).Value :
+//@     (is(d, *EAnnotation) ? strVal(d.(*EAnnotation).Value.Data) : strVal(d.(*EInlinedEnum).Value.Data))
+
+//@ func extractNumericValue
+//@   arith bv
+//@   prop C03 C06
+//@   modifies nothing
+//@   ensures ok: result1 == isNum(data)
+//@   ensures val: result1 ==> same(result0, numVal(data))
+
+//@ func extractStringValue
+//@   arith bv
+//@   prop C03 C06
+//@   modifies nothing
+//@   ensures ok: result1 == isStr(data)
+//@   ensures val: result1 ==> result0 == strVal(data)
+
+// Code-unit lexicographic order (ECMA-262 IsLessThan on strings)
+//@ spec func ucs2Eq(a []uint16, b []uint16) bool = len(a) == len(b) && (forall j int :: 0 <= j && j < len(a) ==> a[j] == b[j])
+//@ spec func ucs2Lt(a []uint16, b []uint16) bool = exists k int :: 0 <= k && k <= len(a) && k <= len(b) &&
+//@     (forall j int :: 0 <= j && j < k ==> a[j] == b[j]) && ((k == len(a) && k < len(b)) || (k < len(a) && k < len(b) && a[k] < b[k]))
+
+//@ func stringCompareUCS2
+//@   opt transparent ucs2Lt ucs2Eq
+//@   arith int
+//@   safety
+//@   prop C03 C06 C16
+//@   ensures lt: result < 0 <==> ucs2Lt(a, b)
+//@   ensures eq: result == 0 <==> ucs2Eq(a, b)
+//@   ensures gt: result > 0 <==> ucs2Lt(b, a)
+//@   loop 0 invariant 0 <= i && i <= n && n <= len(a) && n <= len(b) && (n == len(a) || n == len(b))
+//@   loop 0 invariant forall j int :: 0 <= j && j < i ==> a[j] == b[j]
+//@   loop 0 decreases n - i
+
+//@ spec func bothNum(e *EBinary) bool = isNum(e.Left.Data) && isNum(e.Right.Data)
+//@ spec func lnum(e *EBinary) float64 = numVal(e.Left.Data)
+//@ spec func rnum(e *EBinary) float64 = numVal(e.Right.Data)
+// The numeric arm is tried first, so the string arms are stated for operands that are not both numeric
+// (a literal cannot be both; proving that disjointness needs induction over wrapper chains, so it is
+// stated in the antecedent instead of assumed).
+//@ spec func bothStr(e *EBinary) bool = isStr(e.Left.Data) && isStr(e.Right.Data)
+//@ spec func isNumRes(r Expr) bool = is(r.Data, *ENumber)
+//@ spec func numRes(r Expr) float64 = r.Data.(*ENumber).Value
+//@ spec func isBoolRes(r Expr) bool = is(r.Data, *EBoolean)
+//@ spec func boolRes(r Expr) bool = r.Data.(*EBoolean).Value
+//@ spec func shiftCount(f float64) uint32 = uint32(jsToInt32(f)) & 31
+
+//@ func FoldBinaryOperator
+//@   arith bv
+//@   prop C03 C06
+//@   witness l: old(lnum(e))
+//@   witness r: old(rnum(e))
+//@   witness op: old(e.Op)
+//@   opt replay fold_binary_numeric
+//@   ensures add: old(bothNum(e) && e.Op == BinOpAdd) ==> isNumRes(result) && same(numRes(result), fp.add(old(lnum(e)), old(rnum(e))))
+//@   ensures sub: old(bothNum(e) && e.Op == BinOpSub) ==> isNumRes(result) && same(numRes(result), fp.sub(old(lnum(e)), old(rnum(e))))
+//@   ensures mul: old(bothNum(e) && e.Op == BinOpMul) ==> isNumRes(result) && same(numRes(result), fp.mul(old(lnum(e)), old(rnum(e))))
+//@   ensures div: old(bothNum(e) && e.Op == BinOpDiv) ==> isNumRes(result) && same(numRes(result), fp.div(old(lnum(e)), old(rnum(e))))
+//@   ensures rem: old(bothNum(e) && e.Op == BinOpRem) ==> isNumRes(result) && same(numRes(result), math.Mod(old(lnum(e)), old(rnum(e))))
+//@   ensures shl: old(bothNum(e) && e.Op == BinOpShl) ==> isNumRes(result) &&
+//@       same(numRes(result), float64(jsToInt32(old(lnum(e))) << shiftCount(old(rnum(e)))))
+//@   ensures shr: old(bothNum(e) && e.Op == BinOpShr) ==> isNumRes(result) &&
+//@       same(numRes(result), float64(jsToInt32(old(lnum(e))) >> shiftCount(old(rnum(e)))))
+//@   ensures ushr: old(bothNum(e) && e.Op == BinOpUShr) ==> isNumRes(result) &&
+//@       same(numRes(result), float64(uint32(jsToInt32(old(lnum(e)))) >> shiftCount(old(rnum(e)))))
+//@   ensures and: old(bothNum(e) && e.Op == BinOpBitwiseAnd) ==> isNumRes(result) &&
+//@       same(numRes(result), float64(jsToInt32(old(lnum(e))) & jsToInt32(old(rnum(e)))))
+//@   ensures or: old(bothNum(e) && e.Op == BinOpBitwiseOr) ==> isNumRes(result) &&
+//@       same(numRes(result), float64(jsToInt32(old(lnum(e))) | jsToInt32(old(rnum(e)))))
+//@   ensures xor: old(bothNum(e) && e.Op == BinOpBitwiseXor) ==> isNumRes(result) &&
+//@       same(numRes(result), float64(jsToInt32(old(lnum(e))) ^ jsToInt32(old(rnum(e)))))
+//@   ensures lt: old(bothNum(e) && e.Op == BinOpLt) ==> isBoolRes(result) && boolRes(result) == fp.lt(old(lnum(e)), old(rnum(e)))
+//@   ensures gt: old(bothNum(e) && e.Op == BinOpGt) ==> isBoolRes(result) && boolRes(result) == fp.gt(old(lnum(e)), old(rnum(e)))
+//@   ensures le: old(bothNum(e) && e.Op == BinOpLe) ==> isBoolRes(result) && boolRes(result) == fp.leq(old(lnum(e)), old(rnum(e)))
+//@   ensures ge: old(bothNum(e) && e.Op == BinOpGe) ==> isBoolRes(result) && boolRes(result) == fp.geq(old(lnum(e)), old(rnum(e)))
+//@   ensures eq: old(bothNum(e) && (e.Op == BinOpLooseEq || e.Op == BinOpStrictEq)) ==> isBoolRes(result) && boolRes(result) == fp.eq(old(lnum(e)), old(rnum(e)))
+//@   ensures ne: old(bothNum(e) && (e.Op == BinOpLooseNe || e.Op == BinOpStrictNe)) ==> isBoolRes(result) && boolRes(result) == !fp.eq(old(lnum(e)), old(rnum(e)))
+//@   ensures slt: old(bothStr(e) && !bothNum(e) && e.Op == BinOpLt) ==> isBoolRes(result) && boolRes(result) == old(ucs2Lt(strVal(e.Left.Data), strVal(e.Right.Data)))
+//@   ensures sgt: old(bothStr(e) && !bothNum(e) && e.Op == BinOpGt) ==> isBoolRes(result) && boolRes(result) == old(ucs2Lt(strVal(e.Right.Data), strVal(e.Left.Data)))
+//@   ensures sle: old(bothStr(e) && !bothNum(e) && e.Op == BinOpLe) ==> isBoolRes(result) && boolRes(result) == !old(ucs2Lt(strVal(e.Right.Data), strVal(e.Left.Data)))
+//@   ensures sge: old(bothStr(e) && !bothNum(e) && e.Op == BinOpGe) ==> isBoolRes(result) && boolRes(result) == !old(ucs2Lt(strVal(e.Left.Data), strVal(e.Right.Data)))
+//@   ensures seq: old(bothStr(e) && !bothNum(e) && (e.Op == BinOpLooseEq || e.Op == BinOpStrictEq)) ==> isBoolRes(result) && boolRes(result) == old(ucs2Eq(strVal(e.Left.Data), strVal(e.Right.Data)))
+//@   ensures sne: old(bothStr(e) && !bothNum(e) && (e.Op == BinOpLooseNe || e.Op == BinOpStrictNe)) ==> isBoolRes(result) && boolRes(result) == !old(ucs2Eq(strVal(e.Left.Data), strVal(e.Right.Data)))
+// Number::exponentiate special cases (ECMA-262 6.1.6.1.3), rows 1-3, 8, 9
+//@   ensures pow-nan-exponent: old(bothNum(e) && e.Op == BinOpPow) && fp.isNaN(old(rnum(e))) ==> isNumRes(result) && fp.isNaN(numRes(result))
+//@   ensures pow-zero-exponent: old(bothNum(e) && e.Op == BinOpPow) && fp.isZero(old(rnum(e))) ==> isNumRes(result) && same(numRes(result), 1.0)
+//@   ensures pow-nan-base: old(bothNum(e) && e.Op == BinOpPow) && fp.isNaN(old(lnum(e))) && !fp.isZero(old(rnum(e))) ==> isNumRes(result) && fp.isNaN(numRes(result))
+//@   ensures pow-unit-base-inf-exponent: old(bothNum(e) && e.Op == BinOpPow) && fp.isInf(old(rnum(e))) && fp.eq(fp.abs(old(lnum(e))), 1.0) ==> isNumRes(result) && fp.isNaN(numRes(result))
+//@   ensures pow-inf-exponent: old(bothNum(e) && e.Op == BinOpPow) && fp.isInf(old(rnum(e))) && !fp.isNaN(old(lnum(e))) && !fp.eq(fp.abs(old(lnum(e))), 1.0) ==> isNumRes(result) &&
+//@       same(numRes(result), (fp.gt(fp.abs(old(lnum(e))), 1.0) == fp.isPos(old(rnum(e)))) ? fp.inf() : 0.0)
+
+// ----------------------------------------------------------------------------------------------
+// C09 (F11): "cached ASTs are immutable". Helpers that run after parsing has ended (they are called
+// from the printer and the linker on ASTs shared with the incremental cache) may only write to
+// objects they allocate themselves. The source says so in comments ("intentionally avoids mutating
+// the input AST so it can be called after the AST has been frozen"); here it is a checked frame.
+// The only dynamic call in these helpers is the isUnbound callback (a symbol-table lookup supplied by the
+// parser/printer); it is assumed not to write the AST.
+//@ pure-dynamic HelperContext.isUnbound
+
+//@ func (HelperContext).SimplifyUnusedExpr
+//@   prop C09
+//@   opt frame-only
+//@   opt scenario cached_ast_mutation
+//@   modifies nothing
+
+//@ func TryToInsertOptionalChain
+//@   prop C09
+//@   opt frame-only
+//@   opt scenario cached_ast_mutation
+//@   modifies nothing
+
+//@ func InlinePrimitivesIntoTemplate
+//@   prop C09
+//@   opt frame-only
+//@   opt frame-forbid js_ast_
+//@   modifies nothing
+
+//@ func MaybeSimplifyNot
+//@   prop C09
+//@   opt frame-only
+//@   opt frame-forbid js_ast_
+//@   modifies nothing
+
+//@ func (HelperContext).SimplifyBooleanExpr
+//@   prop C09
+//@   opt frame-only
+//@   opt frame-forbid js_ast_
+//@   modifies nothing
+
+// ----------------------------------------------------------------------------------------------
+// C14 (F6): the minifier and the linker may *introduce* newer syntax only under a test that the target
+// supports it. Each site below must be dominated by a branch that establishes !Has(feature).
+//@ gate optional-chain C14: feature=compat.OptionalChain ; site=call TryToInsertOptionalChain ; in=js_ast,js_parser,js_printer,linker ; except=TryToInsertOptionalChain:recursion inside the helper (its callers are the gated sites)
+//@ gate nullish-coalescing C14: feature=compat.NullishCoalescing ; site=call JoinWithLeftAssociativeOp arg0=js_ast.BinOpNullishCoalescing ; in=js_ast,js_parser,js_printer,linker ; except=(*binaryExprVisitor).visitRightAndFinish:re-associates an existing ?? expression (a ?? (b ?? c)) and introduces no new operator
+//@ gate linker-arrow C14: feature=compat.Arrow ; site=alloc EArrow ; in=linker
